@@ -180,6 +180,10 @@ impl<'a> Tr<'a> {
     }
 
     pub fn pure_via_k(&mut self, e: &Expr, env: &Env, hint: Option<&Ty>) -> R<Val> {
+        let eff = self.effects_expr(e);
+        if eff.ret || !eff.assigned.is_empty() {
+            return Err(unsupported(e, &format!("{} with control flow / assignments in an operand position that is not hoisted", kind_of(e))));
+        }
         let cell: std::cell::RefCell<Option<Ty>> = std::cell::RefCell::new(None);
         let s = self.expr_k(e, env, hint, &|_tr, v| {
             let mut c = cell.borrow_mut();
@@ -425,6 +429,9 @@ impl<'a> Tr<'a> {
         if segs.len() == 1 {
             let n = &segs[0];
             if let Some(v) = env.get(n) {
+                if let Some(a) = &v.alias {
+                    return self.read_alias(a, env, at);
+                }
                 return Ok(Val { s: v.coq.clone(), ty: v.ty.clone() });
             }
             if n == "None" {
@@ -448,7 +455,7 @@ impl<'a> Tr<'a> {
                     _ => Err(unsupported(at, &format!("`{}::{}`", segs[0], segs[1]))),
                 };
             }
-            let tn = if segs[0] == "Self" { self.self_ty.clone().unwrap_or_default() } else { segs[0].clone() };
+            let tn = self.resolve_type_name(&segs[0]);
             let key = format!("{}::{}", tn, segs[1]);
             if let Some(c) = self.t.consts.iter().find(|c| c.key == key) {
                 return Ok(Val { s: c.coq.clone(), ty: c.ty.clone() });
@@ -470,11 +477,11 @@ impl<'a> Tr<'a> {
         let at = &Expr::Struct(s.clone());
         let segs: Vec<String> = s.path.segments.iter().map(|x| x.ident.to_string()).collect();
         let (ctor, ftys, ty) = if segs.len() == 1 {
-            let sn = if segs[0] == "Self" { self.self_ty.clone().unwrap_or_default() } else { segs[0].clone() };
+            let sn = self.resolve_type_name(&segs[0]);
             let (c, f) = self.variant_or_struct(&s.path, &Ty::Infer, at)?;
             (c, f, Ty::Adt(sn))
         } else {
-            let en = if segs[0] == "Self" { self.self_ty.clone().unwrap_or_default() } else { segs[0].clone() };
+            let en = self.resolve_type_name(&segs[0]);
             let (c, f) = self.variant_or_struct(&s.path, &Ty::Infer, at)?;
             (c, f, Ty::Adt(en))
         };
